@@ -351,8 +351,10 @@ pub fn run_scenario(
         let params = match ctx.params(n, cap, t, 0, ppg) {
             Ok(p) => p,
             Err(e) => {
-                out.prove = "harness".into();
-                out.detail = e;
+                // every scenario uses a documented-valid configuration: a refusal to construct its parameters is the library's
+                // answer to this scenario (an error where the specification predicts a proof), not a problem of the harness
+                out.prove = "err".into();
+                out.detail = format!("parameters refused: {}", e);
                 return (out, built);
             },
         };
@@ -603,8 +605,8 @@ pub fn run_scenario(
         let params = match ctx.params(vn, vcap, vt, v["pgH"].as_u64().unwrap(), v["pgG"].as_u64().unwrap()) {
             Ok(p) => p,
             Err(e) => {
-                out.verify = "harness".into();
-                out.detail = e;
+                out.verify = "err".into();
+                out.detail = format!("verifier-side parameters refused: {}", e);
                 return (out, built);
             },
         };
